@@ -147,11 +147,11 @@ _CONSTRUCT_ERRORS = {"ConstructError", "SizeofError", "AdaptationError", "Valida
                      "RotationError", "ChecksumError", "CancelParsing"}
 # raises on the Roland sample path that cannot fire there, confirmed by reading (frozen: a new raise is not covered)
 I11_UNREACHABLE = {
-    ("FileAllocationTable.get_path", "RequestedInvalidSector"):
+    ("get_path", "RequestedInvalidSector"):
         "the Roland table has FAT_NUM_ENTRIES = 0x10000 entries and a chain starts at an Int16ul directory field / continues with stored 16-bit links: never past the table",
-    ("FileAllocationTable.get_path", "InvalidFatDefinition"):
+    ("get_path", "InvalidFatDefinition"):
         "the Roland decoder rejects looping chains when the table is decoded (D1r), so a stored chain ends within `size` steps",
-    ("SampleEntryAdapter._decode_element", "FatNotPresent"):
+    ("_decode_element", "FatNotPresent"):
         "the image parser parses the FAT area before the directory areas and hands it down in the context of every sample record",
 }
 
@@ -265,7 +265,7 @@ def rule_I11(ctx):
             ok = covered(exc)
             why = ""
             if not ok:
-                why = I11_UNREACHABLE.get((fn_._qualname, exc))
+                why = I11_UNREACHABLE.get((fn_.name, exc))  # keyed by the method as reached on the call graph, whichever class of the MRO holds it
                 ok = why is not None
             ctx.ob("I11", r_, f"{fn_._qualname}: a failure raised while realising a Roland sample is of a type the record loops swallow", ok,
                    "" if ok else f"`raise {exc}` is not handled by the per-record handlers {sorted(handled)}: one bad sample aborts the listing / export of all others",
